@@ -11,6 +11,7 @@ current tree that is NOT in that list (after the rename-back stage gave renamed 
   * whose E mentions nothing that is re-bound or mutated between the binding and its last read, and is not captured by
     a comprehension variable at a read site,
   * and - when E draws random numbers - is read exactly once,
+  * in a function that still has every local recorded for it (otherwise the unknown name may be a renamed old one),
 
 is substituted for its reads and the binding is dropped.  Anything else is left exactly as it is.  The substitution
 is the inverse of a semantics-preserving edit on the parsed trees only; it decides nothing by itself."""
@@ -58,7 +59,12 @@ def _preorder(stmts: List[ast.stmt]):
     while stack:
         n = stack.pop()
         yield n
-        stack.extend(reversed(list(ast.iter_child_nodes(n))))
+        kids = list(ast.iter_child_nodes(n))
+        if isinstance(n, (ast.Assign, ast.AugAssign, ast.AnnAssign)) and n.value is not None:
+            kids = [n.value] + [k for k in kids if k is not n.value]    # the value is evaluated before the target is stored
+        elif isinstance(n, (ast.For, ast.AsyncFor)):
+            kids = [n.iter, n.target] + [k for k in kids if k is not n.iter and k is not n.target]
+        stack.extend(reversed(kids))
 
 
 def _touched(stmts: List[ast.stmt], name: str) -> Set[str]:
@@ -216,6 +222,11 @@ def _one_pass(fn, recorded: Dict[str, list]) -> Optional[str]:
 
 def inline_new_temps(fn, recorded: Dict[str, list]) -> List[str]:
     done = []
+    # a recorded local that is gone may be living on under one of the unknown names (a renaming the rename-back stage
+    # could not resolve): then an unknown name is not evidence of a NEW temporary, and nothing is substituted
+    present = {n.id for n in _own(fn) if isinstance(n, ast.Name)} | _params(fn)
+    if any(r not in present for r in recorded):
+        return done
     for _ in range(40):
         nm = _one_pass(fn, recorded)
         if nm is None:
